@@ -1119,6 +1119,13 @@ func (t *Terms) compute(v ssa.Value) string {
 			hi = t.Term(x.High)
 		}
 		base := t.Term(x.X)
+		// x[0:i] is x[:i], x[i:len(x)] is x[i:] (one spelling per slice)
+		if lo == "0" {
+			lo = ""
+		}
+		if hi == "builtin:len("+base+")" {
+			hi = ""
+		}
 		if lo == "" && hi == "" {
 			if _, isPtr := x.X.Type().Underlying().(*types.Pointer); !isPtr {
 				return base // s[:] of a slice is the same slice
